@@ -7,9 +7,10 @@ import Mfi.Driver.TokenD
 import Mfi.Driver.GateD
 import Mfi.Driver.AuthD
 import Mfi.Driver.AdminD
+import Mfi.Driver.AccountD
 open Mfi.Driver
 
-def handlers : List (String → List Int → Option String) := [fxOp, panicOp, irOp, igOp, bankOp, tokOp, gateOp, authOp, adminOp]
+def handlers : List (String → List Int → Option String) := [fxOp, panicOp, irOp, igOp, bankOp, tokOp, gateOp, authOp, adminOp, acctOp]
 
 def stepLine (line : String) : String :=
   match line.trimAscii.toString.splitOn " " with
